@@ -8,7 +8,7 @@ PROPS = {
                 title='Delivered requests depend only on the byte stream, not on how reads split it'),
     'C02': dict(units=['conn', 'request', 'headers'], kani=['method_try_from_exact', 'version_try_from_exact', 'method_roundtrip', 'version_roundtrip', 'find_first_match'],
                 title='Accepted requests are exactly those of the documented grammar'),
-    'C03': dict(units=['conn', 'request', 'client', 'response', 'server'],
+    'C03': dict(units=['conn', 'request', 'client', 'response', 'server', 'headers'],
                 kani=['method_try_from_exact', 'version_try_from_exact', 'find_first_match', 'uri_abs_path_all'],
                 title='No input makes any parsing entry point panic, hang or block'),
     'C04': dict(units=['conn', 'lemmas', 'client', 'headers', 'server'], kani=[], title='Payload and line-length limits are enforced exactly and before buffering'),
